@@ -330,7 +330,11 @@ def persistence_job(job):
     from toasty.image import Image, ImageMode
     from toasty.pyramid import PyramidIO, Pos
 
-    mode, fmt, scheme, maxdepth = job
+    mode, fmt, scheme, maxdepth = job[:4]
+    explicit = len(job) > 4 and job[4]
+    # explicit: the pyramid's default format is another one and every call names the format
+    fk = {"format": fmt} if explicit else {}
+    default_format = fmt if not explicit else ("png" if fmt != "png" else "npy")
     part = Part()
     M = ImageMode[mode]
     A, B, partial, undef = tile_arrays(mode)
@@ -339,7 +343,7 @@ def persistence_job(job):
     region = (slice(100, 140), slice(30, 80))
 
     def bad(clause, detail, hist):
-        cfg = {"mode": mode, "format": fmt, "scheme": scheme, "history": hist}
+        cfg = {"mode": mode, "format": fmt, "scheme": scheme, "history": hist, "explicit_format": bool(explicit)}
         part.violation("persistence/%s/mode=%s/format=%s" % (clause, mode, fmt), "%r: %s" % (cfg, detail), cfg)
 
     def region_src():
@@ -352,10 +356,10 @@ def persistence_job(job):
             arr = {"write_A": A, "write_B": B, "write_partial": partial, "write_undef": undef}[op]
             if arr is None:
                 return ref, False
-            pio.write_image(pos, Image.from_array(arr.copy()))
+            pio.write_image(pos, Image.from_array(arr.copy()), **fk)
             newref = None if all_undefined(mode, arr) else arr
         elif op == "read_none":
-            img = pio.read_image(pos, default="none")
+            img = pio.read_image(pos, default="none", **fk)
             if ref is None:
                 if img is not None:
                     bad("absent-tile-read-as-present", "read_image(default='none') returned an image for an absent tile", hist)
@@ -369,7 +373,7 @@ def persistence_job(job):
                     bad("readback-mode", "mode %r" % (img.mode,), hist)
             newref = ref
         elif op == "read_masked":
-            img = pio.read_image(pos, default="masked", masked_mode=M)
+            img = pio.read_image(pos, default="masked", masked_mode=M, **fk)
             g = np.asarray(img.asarray())
             if ref is None:
                 shape, dt = buf_shape(mode, 256, 256)
@@ -382,7 +386,7 @@ def persistence_job(job):
             if mode == "RGB" and ref is not None and ref.shape[-1] == 3:
                 # a stored 3-channel RGB tile is not a maskable buffer; updating it is outside the model
                 return ref, False
-            with pio.update_image(pos, masked_mode=M, default="masked") as img:
+            with pio.update_image(pos, masked_mode=M, default="masked", **fk) as img:
                 if op == "update_region":
                     Image.from_array(region_src().copy()).update_into_maskable_buffer(img, slice(None), slice(None), region[0], region[1])
             if ref is None:
@@ -403,13 +407,13 @@ def persistence_job(job):
             newref = None if all_undefined(mode, base) else base
         elif op == "stale_file":
             # a tile file left by an earlier run (written outside this PyramidIO object)
-            p = pio.tile_path(pos)
+            p = pio.tile_path(pos, **fk)
             Image.from_array(B.copy()).save(p, format=fmt)
             newref = B
         else:
             raise ValueError(op)
         # after every step: the file exists iff the reference says so; other positions untouched
-        p = pio.tile_path(pos, makedirs=False)
+        p = pio.tile_path(pos, makedirs=False, **fk)
         exists = os.path.exists(p)
         if exists != (newref is not None):
             if newref is None:
@@ -420,12 +424,12 @@ def persistence_job(job):
             # resynchronise the reference with the disk so that one defect does not cascade
             if exists:
                 try:
-                    newref = np.asarray(pio.read_image(pos).asarray())
+                    newref = np.asarray(pio.read_image(pos, **fk).asarray())
                 except Exception:
                     pass
             else:
                 newref = None
-        if os.path.exists(pio.tile_path(other, makedirs=False)):
+        if os.path.exists(pio.tile_path(other, makedirs=False, **fk)):
             bad("other-position-touched", "a file appeared at %r" % (tuple(other),), hist)
         return newref, True
 
@@ -444,7 +448,7 @@ def persistence_job(job):
                 for op in OPS:
                     root = os.path.join(d, "t")
                     shutil.rmtree(root, ignore_errors=True)
-                    pio = PyramidIO(root, scheme=scheme, default_format=fmt)
+                    pio = PyramidIO(root, scheme=scheme, default_format=default_format)
                     ref = None
                     try:
                         with quiet():
@@ -471,7 +475,7 @@ def persistence_job(job):
         part.transitions += transitions
         part.executions += transitions
         part.count("persistence_configurations")
-    part.sample({"mode": mode, "format": fmt, "scheme": scheme, "example_history": max(seen.values(), key=len)})
+    part.sample({"mode": mode, "format": fmt, "scheme": scheme, "explicit_format": bool(explicit), "example_history": max(seen.values(), key=len)})
     return part
 
 
@@ -498,6 +502,8 @@ def run(tier, seed):
         for f in FORMATS[m]:
             for scheme in ("L/Y/YX", "LXY"):
                 jobs.append(("persist", m, f, scheme, maxdepth))
+            # the same histories with an explicit format= differing from the pyramid's default
+            jobs.append(("persist", m, f, "L/Y/YX" if (len(m) + len(f)) % 2 else "LXY", maxdepth, True))
     jobs = rng_order(jobs, seed)
     par.pmap(_job, jobs, rep)
     return rep.finish()
@@ -507,7 +513,7 @@ def replay(payload):
     r = payload["replay"]
     part = Part()
     if "history" in r:
-        p = persistence_job((r["mode"], r["format"], r["scheme"], max(1, len(r["history"]))))
+        p = persistence_job((r["mode"], r["format"], r["scheme"], max(1, len(r["history"])), r.get("explicit_format", False)))
     else:
         p = buffers_job(r["mode"])
     for sig, (detail, _) in p.violations.items():
